@@ -341,70 +341,7 @@ func c18(c *an.Ctx) {
 	})
 
 	c.Check("R-GUARD+R-FRESH", "Parse: a default is used only when no non-null value was supplied; non-null variables with defaults are rejected; the caller's variables map is never written", 4, func(o *an.O) {
-		fn := c.NeedFunc(gq, "Parse")
-		vars := fn.Params[1]
-		an.Instrs(fn, func(i ssa.Instruction) {
-			mu, ok := i.(*ssa.MapUpdate)
-			if !ok || !strings.Contains(mu.Map.Type().String(), "map[string]interface") {
-				return
-			}
-			o.Site(i)
-			if !freshValue(mu.Map) {
-				o.FailAt(i, "Parse writes into %s: the caller's variables map must not be modified (it is reused across re-executions of a subscription)", an.Expr(mu.Map))
-				return
-			}
-			// writes of defaults (value derived from valueToJson) only when vars[name] == nil
-			if strings.Contains(an.Expr(mu.Value), "valueToJson(") {
-				okG := false
-				for _, g := range an.GuardsOf(i.Block()) {
-					bo, ok := g.Cond.(*ssa.BinOp)
-					if !ok || !isConstNil(bo.Y) {
-						continue
-					}
-					if lk, ok := bo.X.(*ssa.Lookup); ok && lk.X == ssa.Value(vars) && an.Expr(lk.Index) == an.Expr(mu.Key) {
-						if (bo.Op == token.NEQ && !g.Polarity) || (bo.Op == token.EQL && g.Polarity) {
-							okG = true
-						}
-					}
-				}
-				if !okG {
-					o.FailAt(i, "a variable's default is installed without checking that no non-null value was supplied for it: a supplied value would be overridden")
-				}
-			}
-		})
-		// the copy of vars into defaultedVars copies every entry
-		okCopy := false
-		an.Instrs(fn, func(i ssa.Instruction) {
-			if mu, ok := i.(*ssa.MapUpdate); ok && freshValue(mu.Map) {
-				if ex, ok := mu.Value.(*ssa.Extract); ok {
-					if nx, ok := ex.Tuple.(*ssa.Next); ok {
-						if r, ok := nx.Iter.(*ssa.Range); ok && r.X == ssa.Value(vars) {
-							okCopy = true
-						}
-					}
-				}
-			}
-		})
-		if !okCopy {
-			o.Fail(p.Pos(fn.Pos()), "when defaults apply, the supplied variables are not copied into the map that is used")
-		}
-		// non-null with default rejected
-		okRej := false
-		for _, e := range an.Exits(fn, false) {
-			if isConstNil(an.ResultAt(e.(*ssa.Return), 1)) {
-				continue
-			}
-			gs := strings.Join(an.GuardStrings(e.Block()), " ; ")
-			if strings.Contains(gs, ".(*ast.NonNull)#1") && strings.Contains(gs, ".DefaultValue != nil)") {
-				okRej = true
-				o.Site(e)
-			}
-		}
-		if !okRej {
-			o.Fail(p.Pos(fn.Pos()), "a required ($x: T!) variable with a default value is no longer rejected")
-		}
-		// the vars used for parsing the selection sets are the defaulted ones when defaults exist
-		ruleParseUsesDefaultedVars(c, o)
+		ruleParseDefaults(c, o, "")
 	})
 
 	c.Check("R-WHO", "arguments are parsed once, by validation: Field.ParseArguments is only invoked from prepareQuery, guarded by the parsed flag; resolvers get selection.Args", 3, func(o *an.O) {
@@ -474,4 +411,84 @@ func ruleParseUsesDefaultedVars(c *an.Ctx, o *an.O) {
 	if n == 0 {
 		o.Fail(c.P.Pos(fn.Pos()), "Parse no longer parses selection sets")
 	}
+}
+
+// ruleParseDefaults (C18, shared with C15 and C19): Parse installs a variable's default only when
+// no non-null value was supplied, rejects defaults on non-null variables and never writes
+// into the caller's variables map (a nil map would panic, a shared one leaks between runs).
+func ruleParseDefaults(c *an.Ctx, o *an.O, part string) {
+	p := c.P
+	_ = p
+	fn := c.NeedFunc(gq, "Parse")
+	vars := fn.Params[1]
+	an.Instrs(fn, func(i ssa.Instruction) {
+		mu, ok := i.(*ssa.MapUpdate)
+		if !ok || !strings.Contains(mu.Map.Type().String(), "map[string]interface") {
+			return
+		}
+		o.Site(i)
+		if !freshValue(mu.Map) {
+			if part == "" || part == "write" {
+				o.FailAt(i, "Parse writes into %s: the caller's variables map must not be modified (it is reused across re-executions of a subscription)", an.Expr(mu.Map))
+			}
+			return
+		}
+		// writes of defaults (value derived from valueToJson) only when vars[name] == nil
+		if strings.Contains(an.Expr(mu.Value), "valueToJson(") {
+			okG := false
+			for _, g := range an.GuardsOf(i.Block()) {
+				bo, ok := g.Cond.(*ssa.BinOp)
+				if !ok || !isConstNil(bo.Y) {
+					continue
+				}
+				if lk, ok := bo.X.(*ssa.Lookup); ok && lk.X == ssa.Value(vars) && an.Expr(lk.Index) == an.Expr(mu.Key) {
+					if (bo.Op == token.NEQ && !g.Polarity) || (bo.Op == token.EQL && g.Polarity) {
+						okG = true
+					}
+				}
+			}
+			if !okG {
+				if part == "" || part == "guard" {
+					o.FailAt(i, "a variable's default is installed without checking that no non-null value was supplied for it: a supplied value would be overridden")
+				}
+			}
+		}
+	})
+	// the copy of vars into defaultedVars copies every entry
+	okCopy := false
+	an.Instrs(fn, func(i ssa.Instruction) {
+		if mu, ok := i.(*ssa.MapUpdate); ok && freshValue(mu.Map) {
+			if ex, ok := mu.Value.(*ssa.Extract); ok {
+				if nx, ok := ex.Tuple.(*ssa.Next); ok {
+					if r, ok := nx.Iter.(*ssa.Range); ok && r.X == ssa.Value(vars) {
+						okCopy = true
+					}
+				}
+			}
+		}
+	})
+	if !okCopy {
+		if part == "" || part == "all" {
+			o.Fail(p.Pos(fn.Pos()), "when defaults apply, the supplied variables are not copied into the map that is used")
+		}
+	}
+	// non-null with default rejected
+	okRej := false
+	for _, e := range an.Exits(fn, false) {
+		if isConstNil(an.ResultAt(e.(*ssa.Return), 1)) {
+			continue
+		}
+		gs := strings.Join(an.GuardStrings(e.Block()), " ; ")
+		if strings.Contains(gs, ".(*ast.NonNull)#1") && strings.Contains(gs, ".DefaultValue != nil)") {
+			okRej = true
+			o.Site(e)
+		}
+	}
+	if !okRej {
+		if part == "" || part == "all" {
+			o.Fail(p.Pos(fn.Pos()), "a required ($x: T!) variable with a default value is no longer rejected")
+		}
+	}
+	// the vars used for parsing the selection sets are the defaulted ones when defaults exist
+	ruleParseUsesDefaultedVars(c, o)
 }
